@@ -369,7 +369,7 @@ def case_rng(seed, prop, i):
 
 
 def case_hash(case):
-    return hashlib.sha256(json.dumps(case, sort_keys=True, default=str).encode()).hexdigest()[:16]
+    return int.from_bytes(hashlib.sha256(json.dumps(case, sort_keys=True, default=str).encode()).digest()[:8], 'big')
 
 
 # ---------------------------------------------------------------------------
@@ -604,6 +604,9 @@ def do_run(mod, modname, tier, seed, b, scratch, t0):
     inconclusive_run = None
     if hasattr(mod, 'finish'):
         inconclusive_run = mod.finish(m)
+    missing = [e for e in getattr(mod, 'REQUIRED_EVENTS', []) if not m['events'].get(e)]
+    if missing and status == 0 and not inconclusive_run:
+        inconclusive_run = 'monitors observed nothing of kind(s): %s' % ', '.join(missing)
     if nontriv < 2 and status == 0:
         inconclusive_run = 'fewer than 2 distinct non-trivial cases observed'
     if inconclusive_run:
